@@ -125,7 +125,7 @@ func (x *runner) emit(cmd string, args []any, step any, bucket string) {
 	o := x.env.Call(cmd, args, step)
 	c := x.env.Cmds[cmd]
 	class := cmd + "/" + bucket
-	// input classes of the recorded defects
+	// narrow input classes: the repaired defect and the ambiguous-documentation case
 	if cmd == "math:pow" && len(args) == 2 && IsExactZero(args[0]) {
 		if e := ToRat(args[1]); e != nil && e.IsInt() && e.Sign() < 0 {
 			class = "pow-zero-negative-exponent"
